@@ -245,13 +245,5 @@ def _short(o):
 
 
 def replay(ctx, path):
-    import json
-    g = gtirb_from_repo.load()
-    d = json.load(open(path))
-    s = d["primary"]["replay"]["type_name"]
-    rep = model_batch([[1, zs(s)]])[0]
-    print("type_name:", repr(s))
-    print("impl  :", impl_parse(g, s))
-    print("model :", model_obs(rep))
-    print("oracle:", oracle_obs(s))
-    return 0
+    import replaylib
+    return replaylib.replay_file(path)
